@@ -460,6 +460,7 @@ func (x *exec) enterLoop(fr *frame, li *loopInfo, sin *State) *State {
 	x.runBlocks(fr, body[1:], nil)
 	modCells := map[*ssa.Alloc]bool{}
 	modHeap := map[string]bool{}
+	goneHeap := map[string]bool{}
 	modGlobals := map[*ssa.Global]bool{}
 	modGhost := map[string]bool{}
 	havocAll := false
@@ -495,6 +496,11 @@ func (x *exec) enterLoop(fr *frame, li *loopInfo, sin *State) *State {
 				modHeap[n] = true
 			}
 		}
+		for n := range sin.heap {
+			if _, ok := ls.heap[n]; !ok {
+				goneHeap[n] = true // forgotten by a havoc on the way to this latch
+			}
+		}
 	}
 	x.dry--
 	x.obligs = x.obligs[:nObl]
@@ -505,7 +511,23 @@ func (x *exec) enterLoop(fr *frame, li *loopInfo, sin *State) *State {
 	// havoc
 	s := sin.clone()
 	if havocAll {
+		// heap entries the body provably leaves alone although it makes calls that havoc the rest
+		// (C20: the history's own objects across calls of stored change closures)
+		keep := map[string]string{}
+		if x.con != nil && x.con.Claims["sigma"] {
+			for n, t := range sin.heap {
+				if !(strings.Contains(n, "utils.History") || strings.Contains(n, "utils.HeightChanges") || strings.Contains(n, "utils.change") || n == "alive") {
+					continue
+				}
+				if !modHeap[n] && !goneHeap[n] && n != "alive" {
+					keep[n] = t
+				}
+			}
+		}
 		x.havocAll(s)
+		for n, t := range keep {
+			s.heap[n] = t
+		}
 	} else {
 		var names []string
 		for n := range modHeap {
